@@ -123,3 +123,62 @@ def dot_expr(sh, a, b):
     for i in range(1, sh.dim):
         e = '(%s + %s * %s)' % (e, ev(sh, a, i), ev(sh, b, i))
     return e
+
+
+# ------------------------------------------------------------------ kind / size conversions (mode G)
+import re as _re
+
+
+def add_conversions(u, only=None):
+    """every `impl From<Src<T>> for Dst<T>` between vector kinds/sizes (vec.rs:3219-3693) in mode G, with
+    the meaning taken from the property text: equal size keeps order, shrinking drops trailing
+    elements, growing appends zeros; (Smaller<T>, T) appends the scalar; tuples keep order."""
+    done = []
+    for dst in VECS:
+        if only and dst.name not in only:
+            continue
+        for it in u.exp.by_path.get(dst.path, []):
+            if it.kind != 'impl':
+                continue
+            h = it.nheader()
+            m = _re.match(r'^impl<T(:[A-Za-z]+)?>From<(\w+)<T>>for %s<T>$' % dst.name, h)
+            if m and m.group(2) in VEC and (not only or m.group(2) in only):
+                src = VEC[m.group(2)]
+                bound = (m.group(1) or '')
+                if bound not in ('', ':Zero'):
+                    continue   # ColorComponent-based ones are handled by the colour unit
+                hdr = ' '.join(it.header.split())
+                u.take_impl(dst.path, hdr, mode='G')
+                u.from_given.add(norm(hdr))
+                elems = []
+                for i in range(dst.dim):
+                    elems.append('v.%s' % src.fields[i] if i < src.dim else 'T::zero_spec()')
+                u.add(dst.path, 'impl<T%s> FromSpecImpl<%s<T>> for %s<T> {\n    open spec fn obeys_from_spec() -> bool { true }\n'
+                      '    open spec fn from_spec(v: %s<T>) -> %s<T> { %s }\n}'
+                      % (bound.replace(':', ': '), src.name, dst.name, src.name, dst.name, dst.lit(elems)))
+                done.append((src.name, dst.name))
+                continue
+            m = _re.match(r'^impl<T>From<\((\w+)<T>,T\)>for %s<T>$' % dst.name, h)
+            if m and m.group(1) in VEC and (not only or m.group(1) in only):
+                src = VEC[m.group(1)]
+                hdr = ' '.join(it.header.split())
+                u.take_impl(dst.path, hdr, mode='G')
+                u.from_given.add(norm(hdr))
+                elems = ['t.0.%s' % src.fields[i] if i < src.dim else 't.1' for i in range(dst.dim)]
+                u.add(dst.path, 'impl<T> FromSpecImpl<(%s<T>, T)> for %s<T> {\n    open spec fn obeys_from_spec() -> bool { true }\n'
+                      '    open spec fn from_spec(t: (%s<T>, T)) -> %s<T> { %s }\n}'
+                      % (src.name, dst.name, src.name, dst.name, dst.lit(elems)))
+                done.append(('(%s,T)' % src.name, dst.name))
+                continue
+            tup = '(' + ','.join(['T'] * dst.dim) + ')'
+            if h == 'impl<T>From<%s>for %s<T>' % (tup, dst.name):
+                hdr = ' '.join(it.header.split())
+                u.take_impl(dst.path, hdr, mode='G')
+                u.from_given.add(norm(hdr))
+                elems = ['t.%d' % i for i in range(dst.dim)]
+                tt = '(' + ', '.join(['T'] * dst.dim) + ')'
+                u.add(dst.path, 'impl<T> FromSpecImpl<%s> for %s<T> {\n    open spec fn obeys_from_spec() -> bool { true }\n'
+                      '    open spec fn from_spec(t: %s) -> %s<T> { %s }\n}'
+                      % (tt, dst.name, tt, dst.name, dst.lit(elems)))
+                done.append(('tuple', dst.name))
+    return done
